@@ -92,6 +92,30 @@ def install(ex):
     reg("os.rename", os_rename)
     reg("os.replace", os_rename)
 
+    def sh_move(I, a, b):
+        """contract of shutil.move: os.rename when possible; across file systems it COPIES:
+        the destination is opened for writing, then the source is removed"""
+        maybe_fault(I, "move")
+        if I.decide(I.fresh("same_filesystem", z3.BoolSort())):
+            trace(I).append(("rename", a, b))
+            return b
+        h = PObj("file", {"path": b, "mode": "wb", "closed": False, "written": False})
+        trace(I).append(("open_w", b, h))
+        maybe_fault(I, "copy")
+        trace(I).append(("close", b, h))
+        trace(I).append(("unlink", a, None))
+        return b
+    reg("shutil.move", sh_move)
+
+    def sh_copy(I, a, b, *r, **k):
+        maybe_fault(I, "copy")
+        h = PObj("file", {"path": b, "mode": "wb", "closed": False, "written": False})
+        trace(I).append(("open_w", b, h))
+        trace(I).append(("close", b, h))
+        return b
+    for nm in ("shutil.copy", "shutil.copyfile", "shutil.copy2"):
+        reg(nm, sh_copy)
+
     def os_unlink(I, p):
         trace(I).append(("unlink", p, None))      # the attempt is the event; it may still fail
         maybe_fault(I, "unlink")
